@@ -689,12 +689,13 @@ func checkCreateEventV3(event PDU, sender spec.UserID, knownRoomVersion KnownRoo
 		}
 	}
 	ev := struct {
-		RoomID string `json:"room_id"`
+		RoomID *string `json:"room_id"`
 	}{}
 	if err := json.Unmarshal(event.JSON(), &ev); err != nil {
 		return errorf("create event cannot be valid json: %s", err.Error())
 	}
-	if ev.RoomID != "" {
+	// The rule is about the member being there, not about its value.
+	if ev.RoomID != nil {
 		return errorf("create event must not have a room_id set")
 	}
 
